@@ -27,17 +27,28 @@ type Facts struct {
 	Bytes  map[string][]int64  `json:"bytes"`  // byte/number lists
 	Tables map[string][][2]any `json:"tables"` // (code, name) tables
 	Bools  map[string]bool     `json:"bools"`
+	Strs   map[string][]string `json:"strs"`    // name lists
 	Miss   []string            `json:"missing"` // anchors not found
 	// C03 panic-site inventory (panicsites.go): JSON only, steers oracle c03
 	PanicSites       []PanicSite    `json:"panicSites"`
 	PanicSiteCounts  map[string]int `json:"panicSiteCounts"`
 	PanicRootsMissed []string       `json:"panicRootsMissing,omitempty"`
 	PanicSitesError  string         `json:"panicSitesError,omitempty"`
+	MissT  map[string]string   `json:"missing_types,omitempty"` // Lean type of a missing fact when not Nat
 }
 
-var facts = Facts{Nat: map[string]int64{}, Bytes: map[string][]int64{}, Tables: map[string][][2]any{}, Bools: map[string]bool{}}
+var facts = Facts{Nat: map[string]int64{}, Bytes: map[string][]int64{}, Tables: map[string][][2]any{}, Bools: map[string]bool{}, Strs: map[string][]string{}, MissT: map[string]string{}}
 
 func miss(name string) { facts.Miss = append(facts.Miss, name) }
+
+// missT records a missing anchor whose fact has Lean type `Option <typ>`.
+func missT(name, typ string) {
+	facts.Miss = append(facts.Miss, name)
+	facts.MissT[name] = typ
+}
+
+// extraExtractors are registered by init functions of the per-family files.
+var extraExtractors []func(pkgs map[string]*Pkg)
 
 type Pkg struct {
 	*packages.Package
@@ -278,6 +289,9 @@ func main() {
 		}
 		facts.PanicSites, facts.PanicSiteCounts = sites, counts
 	}
+	for _, f := range extraExtractors {
+		f(pkgs)
+	}
 
 	js, _ := json.MarshalIndent(facts, "", " ")
 	if outJSON != "" {
@@ -355,11 +369,26 @@ func renderLean() string {
 	for _, k := range keys {
 		fmt.Fprintf(&b, "def %s : Option Bool := some %v\n", k, facts.Bools[k])
 	}
+	keys = keys[:0]
+	for k := range facts.Strs {
+		keys = append(keys, k)
+	}
+	sort.Strings(keys)
+	for _, k := range keys {
+		parts := make([]string, len(facts.Strs[k]))
+		for i, v := range facts.Strs[k] {
+			parts[i] = fmt.Sprintf("%q", v)
+		}
+		fmt.Fprintf(&b, "def %s : Option (List String) := some [%s]\n", k, strings.Join(parts, ", "))
+	}
 	sort.Strings(facts.Miss)
 	for _, k := range facts.Miss {
 		// An anchor the extractor could not find: the obligation that uses it
 		// fails to check (it is `none`), which is a broken tie, not silence.
 		typ := "Nat"
+		if t, ok := facts.MissT[k]; ok {
+			typ = t
+		}
 		fmt.Fprintf(&b, "def %s : Option %s := none -- ANCHOR NOT FOUND\n", k, typ)
 	}
 	b.WriteString("\nend Dhcp.Gen\n")
